@@ -103,7 +103,8 @@ pub fn run(args: &Args) -> i32 {
     )
     .with_min_nontrivial(20);
     let threads = n_threads();
-    let max_cases: u64 = args.tier.pick(3000, 300_000);
+    // quick: fixed case set per seed (deterministic; the time budget is only a safety net)
+    let max_cases: u64 = args.tier.pick(500, 300_000);
     let queries_per_state = args.tier.pick(8, 20);
     let next = AtomicU64::new(0);
     let only_case: Option<u64> = args.extra.get("case").and_then(|s| s.parse().ok());
@@ -118,7 +119,7 @@ pub fn run(args: &Args) -> i32 {
             }
             case = c;
         }
-        if case >= max_cases || !report.time_left() {
+        if (only_case.is_none() && case >= max_cases) || !report.time_left() {
             break;
         }
         let mut rng = Rng::for_case(args.seed, case);
